@@ -30,7 +30,7 @@ SIBLING = {"test.op": ["test.pureop", "test.op_with_memread"], "test.pureop": ["
            "arith.constant": ["test.pureop"]}
 ATTR_NAMES = ["attr", "prop1", "tag", "prop2"]
 MUTATIONS = ["name", "opcount+", "opcount-", "attrval", "attrmissing", "attrextra", "type", "rescount+", "rescount-",
-             "shared-operand", "shared-type", "chain-arg", "chain-index", "typed-attr-type", "attr-is-prop"]
+             "shared-operand", "shared-type", "chain-arg", "chain-index", "typed-attr-type", "attr-is-prop", "chain-twin"]
 ARITH_MUTATIONS = ["name", "attrval", "chain-arg", "shared-operand", "attrextra", "chain-arg", "attrval"]
 
 
@@ -43,6 +43,7 @@ class PatGen:
         self.free_types: list[str] = []
         self.operands: list[str] = []
         self.attrs: list[str] = []
+        self.nested_ops: list[str] = []  # finished non-root ops: re-usable by later ops (shared defining op / grand-parent)
 
     def fresh(self, p):
         self.n += 1
@@ -99,14 +100,26 @@ class PatGen:
         operands = []
         nested_done = []
         for _ in range(nopnd):
-            if depth < 2 and rng.random() < (0.5 if depth == 0 else 0.3):
-                if nested_done and rng.random() < 0.3:
-                    sub = rng.choice(nested_done)  # two results of the same nested op / the same result twice
+            if depth < 2 and rng.random() < (0.55 if depth == 0 else 0.35):
+                used_idx = None
+                multi = [o for o in self.nested_ops if len(self.by_id(o)["types"]) >= 2]
+                if nested_done and rng.random() < 0.55:
+                    # ONE defining op reached through two operand paths of this op (other result index preferred)
+                    sub = rng.choice(nested_done)
+                    used_idx = [self.by_id(v)["index"] for v in operands if self.by_id(v)["k"] == "result" and self.by_id(v)["of"] == sub]
+                elif multi and rng.random() < 0.25:
+                    # a defining op created for ANOTHER op of the pattern: two operands' chains share a (grand-)parent
+                    sub = rng.choice(multi)
+                    used_idx = [s["index"] for s in self.match if s["k"] == "result" and s["of"] == sub]
                 else:
                     sub = self.op(depth + 1, arith=rng.random() < 0.3)
                     nested_done.append(sub)
-                nres = len(next(s for s in self.match if s["id"] == sub)["types"])
+                nres = len(self.by_id(sub)["types"])
                 idx = rng.randrange(nres) if nres and rng.random() < 0.95 else nres
+                if used_idx and rng.random() < 0.8:
+                    other = [i for i in range(nres) if i not in used_idx]
+                    if other:
+                        idx = rng.choice(other)
                 rid = None
                 if rng.random() < 0.5:
                     rid = next((s["id"] for s in self.match if s["k"] == "result" and s["of"] == sub and s["index"] == idx), None)
@@ -123,7 +136,12 @@ class PatGen:
         types = [self.pick_type() for _ in range(nres)]
         i = self.fresh("o")
         self.match.append({"k": "op", "id": i, "name": name, "operands": operands, "attrs": attrs, "types": types})
+        if not root:
+            self.nested_ops.append(i)
         return i
+
+    def by_id(self, i):
+        return next(s for s in self.match if s["id"] == i)
 
     def arith_op(self, depth, root, ity=None):
         rng = self.rng
@@ -454,6 +472,24 @@ class Payload:
                 seen_operand_use[vid] = True
                 return env[vid]
             # result of a nested op
+            if mkind == "chain-twin" and not applied[0] and s["of"] in env:
+                # the pattern reaches ONE defining op through this second operand path; the payload takes the value
+                # from a DIFFERENT op of the same name / types / attributes (a fresh copy; its own defining ops are
+                # shared or copied too), same result index: each operand path looks right on its own
+                applied[0] = True
+                saved = {}
+                todo = [s["of"]]
+                deep = rng.random() < 0.5
+                while todo:
+                    o = todo.pop()
+                    if o in env:
+                        saved[o] = env.pop(o)
+                        if deep:
+                            todo += [by[v]["of"] for v in by[o]["operands"] if by[v]["k"] == "result"]
+                res = emit_op(s["of"])
+                env.update(saved)
+                if s["index"] < len(res):
+                    return res[s["index"]]
             res = emit_op(s["of"])
             if mkind == "chain-arg" and msite == site and not applied[0]:
                 applied[0] = True
@@ -563,7 +599,7 @@ class Payload:
 
 MUTATION_WEIGHTS = (["name"] * 2 + ["opcount+", "opcount-"] + ["attrval"] * 3 + ["attrmissing", "attrextra"] + ["type"] * 2 +
                     ["rescount+", "rescount-"] + ["shared-operand"] * 3 + ["shared-type"] * 3 + ["chain-arg"] * 2 +
-                    ["chain-index"] * 4 + ["typed-attr-type"] + ["attr-is-prop"] * 2)
+                    ["chain-index"] * 4 + ["typed-attr-type"] + ["attr-is-prop"] * 2 + ["chain-twin"] * 6)
 
 
 def _applicable(kind, site, by, ops):
@@ -589,6 +625,10 @@ def _applicable(kind, site, by, ops):
         return any(by[v]["k"] == "result" for v in s["operands"])
     if kind == "chain-index":
         return any(by[v]["k"] == "result" and len(by[by[v]["of"]]["types"]) >= 2 for v in s["operands"])
+    if kind == "chain-twin":
+        # some defining op is the target of >= 2 operand uses (distinct pdl.result values or positions)
+        uses = [by[v]["of"] for o in ops for v in by[o]["operands"] if by[v]["k"] == "result"]
+        return any(uses.count(d) >= 2 for d in set(uses))
     if kind == "shared-operand":
         allops = [v for o in ops for v in by[o]["operands"] if by[v]["k"] == "operand"]
         return any(by[v]["k"] == "operand" and allops.count(v) >= 2 for v in s["operands"])
@@ -604,6 +644,8 @@ def gen_payload(rng, spec, exact_only=False):
     by = {s["id"]: s for s in spec["match"]}
     p = Payload(rng, in_func=rng.random() < 0.5)
     plan = []
+    _uses = [by[v]["of"] for o in ops for v in by[o]["operands"] if by[v]["k"] == "result"]
+    has_shared_def = any(_uses.count(d) >= 2 for d in set(_uses))
     ninst = rng.choice([2, 3, 4, 5])
     for i in range(ninst):
         if p.nops > 36:
@@ -612,8 +654,10 @@ def gen_payload(rng, spec, exact_only=False):
             p.junk()
         mut = None
         if not exact_only and rng.random() >= 0.4:
-            for _ in range(4):
+            for attempt in range(4):
                 kind = rng.choice(MUTATION_WEIGHTS)
+                if attempt == 0 and has_shared_def and rng.random() < 0.4:
+                    kind = "chain-twin"  # the shape is rare: use it when the pattern has it
                 sites = [o for o in ops if _applicable(kind, o, by, ops)]
                 if sites:
                     mut = (kind, rng.choice(sites))
